@@ -24,52 +24,56 @@ theorem nodupL_cons (k : List Char) (ks : List (List Char)) (h : nodupL (k :: ks
   simpa [nodupL] using h
 
 mutual
-theorem parse_expr : ∀ (e : PyExpr), wf e = true → ∀ (σ : List Frame) (c : Bool) (φ : Phase) (rest : List Tok),
+theorem parse_expr : ∀ (e : PyExpr), wf e = true → ∀ (σ : List Frame) (c : Bool) (φ : Phase) (rest : List Tok), φ ≠ .expr →
     parse ⟨σ, .operand c false, φ, false⟩ (toks e ++ rest)
       = parse ⟨σ, .afterOp (endsStr e), φ, false⟩ rest
-  | .name n, _, σ, c, φ, rest => by
+  | .name n, _, σ, c, φ, rest, hφ => by
     simp [toks, parse, pstep, operandStep, startsPositional, endsStr]
-  | .const w, h, σ, c, φ, rest => by
+  | .const w, h, σ, c, φ, rest, hφ => by
     simp only [wf, Bool.and_eq_true] at h
     simp [toks, parse, pstep, operandStep, startsPositional, endsStr, h.1]
-  | .num t, _, σ, c, φ, rest => by
+  | .num t, _, σ, c, φ, rest, hφ => by
     simp [toks, parse, pstep, operandStep, startsPositional, endsStr]
-  | .negNum t, _, σ, c, φ, rest => by
+  | .negNum t, _, σ, c, φ, rest, hφ => by
+    have hm : ∀ st : PState, st.phase = φ → minusPhase st = φ := by
+      intro st e
+      unfold minusPhase
+      cases st.stack <;> cases hp : st.phase <;> simp_all
+    simp [toks, parse, pstep, operandStep, startsPositional, endsStr, hm]
+  | .strLit cs, _, σ, c, φ, rest, hφ => by
     simp [toks, parse, pstep, operandStep, startsPositional, endsStr]
-  | .strLit cs, _, σ, c, φ, rest => by
-    simp [toks, parse, pstep, operandStep, startsPositional, endsStr]
-  | .call f kws, h, σ, c, φ, rest => by
+  | .call f kws, h, σ, c, φ, rest, hφ => by
     simp only [wf, Bool.and_eq_true] at h
-    have ih := parse_kws kws h.2 true σ false [] false φ rest h.1.2 (by simp)
+    have ih := parse_kws kws h.2 true σ false [] false φ rest hφ h.1.2 (by simp)
     simp [toks, parse, pstep, operandStep, afterStep, startsPositional, endsStr] at ih ⊢
     exact ih
-  | .list xs, h, σ, c, φ, rest => by
+  | .list xs, h, σ, c, φ, rest, hφ => by
     simp only [wf] at h
-    have ih := parse_list xs h true σ false φ rest
+    have ih := parse_list xs h true σ false φ rest hφ
     simp [toks, parse, pstep, operandStep, startsPositional, endsStr] at ih ⊢
     exact ih
-  | .dict kvs, h, σ, c, φ, rest => by
+  | .dict kvs, h, σ, c, φ, rest, hφ => by
     simp only [wf] at h
-    have ih := parse_kvs kvs h true σ false φ rest
+    have ih := parse_kvs kvs h true σ false φ rest hφ
     simp [toks, parse, pstep, operandStep, startsPositional, endsStr] at ih ⊢
     exact ih
-  | .lam b, h, σ, c, φ, rest => by
+  | .lam b, h, σ, c, φ, rest, hφ => by
     simp only [wf] at h
-    have ih := parse_expr b h σ false φ rest
+    have ih := parse_expr b h σ false φ rest hφ
     simp [toks, parse, pstep, operandStep, startsPositional, endsStr, isOp, kwLambda, constKw] at ih ⊢
     exact ih
-  | .bad, h, _, _, _, _ => by simp [wf] at h
+  | .bad, h, _, _, _, _, _ => by simp [wf] at h
 theorem parse_list : ∀ (xs : List PyExpr), wfL xs = true → ∀ (first : Bool) (σ : List Frame) (b : Bool)
-    (φ : Phase) (rest : List Tok),
+    (φ : Phase) (rest : List Tok), φ ≠ .expr →
     parse ⟨.lst :: σ, (if first then .operand true false else .afterOp b), φ, false⟩
         (toksL first xs ++ .op ']' :: rest)
       = parse ⟨σ, .afterOp false, φ, false⟩ rest
-  | [], _, first, σ, b, φ, rest => by
+  | [], _, first, σ, b, φ, rest, hφ => by
     cases first <;> simp [toksL, parse, pstep, operandStep, afterStep, closeStep, closes, startsPositional]
-  | x :: xs, h, first, σ, b, φ, rest => by
+  | x :: xs, h, first, σ, b, φ, rest, hφ => by
     simp only [wfL, Bool.and_eq_true] at h
-    have ih1 := parse_expr x h.1 (.lst :: σ) true φ (toksL false xs ++ .op ']' :: rest)
-    have ih2 := parse_list xs h.2 false σ (endsStr x) φ rest
+    have ih1 := parse_expr x h.1 (.lst :: σ) true φ (toksL false xs ++ .op ']' :: rest) hφ
+    have ih2 := parse_list xs h.2 false σ (endsStr x) φ rest hφ
     cases first
     · simp [toksL, parse, pstep, afterStep] at ih1 ih2 ⊢
       rw [ih1, ih2]
@@ -77,23 +81,23 @@ theorem parse_list : ∀ (xs : List PyExpr), wfL xs = true → ∀ (first : Bool
       rw [ih1, ih2]
 theorem parse_kws : ∀ (kws : List (List Char × PyExpr)), wfKws kws = true →
     ∀ (first : Bool) (σ : List Frame) (k0 : Bool) (ns : List (List Char)) (b : Bool) (φ : Phase)
-      (rest : List Tok),
+      (rest : List Tok), φ ≠ .expr →
     nodupL (kws.map (·.1)) = true → (∀ k ∈ kws.map (·.1), ns.contains k = false) →
     parse ⟨.call false k0 ns :: σ, (if first then .operand true true else .afterOp b), φ, false⟩
         (toksKws first kws ++ .op ')' :: rest)
       = parse ⟨σ, .afterOp false, φ, false⟩ rest
-  | [], _, first, σ, k0, ns, b, φ, rest, _, _ => by
+  | [], _, first, σ, k0, ns, b, φ, rest, hφ, _, _ => by
     cases first <;> simp [toksKws, parse, pstep, operandStep, afterStep, closeStep, closes, startsPositional]
-  | (k, v) :: r, h, first, σ, k0, ns, b, φ, rest, hnd, hns => by
+  | (k, v) :: r, h, first, σ, k0, ns, b, φ, rest, hφ, hnd, hns => by
     simp only [wfKws, Bool.and_eq_true] at h
     have hk : targetName k = true := h.1.1
     simp only [targetName, Bool.and_eq_true, Bool.not_eq_true'] at hk
     have hnd' := nodupL_cons k (r.map (·.1)) (by simpa using hnd)
     have hkns : ns.contains k = false := hns k (by simp)
-    have ih1 := parse_expr v h.1.2 (.call false true (k :: ns) :: σ) false φ (toksKws false r ++ .op ')' :: rest)
+    have ih1 := parse_expr v h.1.2 (.call false true (k :: ns) :: σ) false φ (toksKws false r ++ .op ')' :: rest) hφ
     have hkns' : k ∉ ns := by simpa using hkns
     have hkr : k ∉ r.map (·.1) := by simpa using hnd'.1
-    have ih2 := parse_kws r h.2 false σ true (k :: ns) (endsStr v) φ rest hnd'.2 (by
+    have ih2 := parse_kws r h.2 false σ true (k :: ns) (endsStr v) φ rest hφ hnd'.2 (by
       intro k' hk'
       have h1 : k' ∉ ns := by
         have := hns k' (List.mem_cons_of_mem _ hk')
@@ -106,22 +110,22 @@ theorem parse_kws : ∀ (kws : List (List Char × PyExpr)), wfKws kws = true →
     · simp [toksKws, parse, pstep, operandStep, startsPositional, isOp, hk.2, hkns'] at ih1 ih2 ⊢
       rw [ih1, ih2]
 theorem parse_kvs : ∀ (kvs : List (PyExpr × PyExpr)), wfKVs kvs = true → ∀ (first : Bool) (σ : List Frame)
-    (b : Bool) (φ : Phase) (rest : List Tok),
+    (b : Bool) (φ : Phase) (rest : List Tok), φ ≠ .expr →
     parse ⟨.dict (if first then .start else .colon) :: σ,
           (if first then .operand true false else .afterOp b), φ, false⟩
         (toksKVs first kvs ++ .op '}' :: rest)
       = parse ⟨σ, .afterOp false, φ, false⟩ rest
-  | [], _, first, σ, b, φ, rest => by
+  | [], _, first, σ, b, φ, rest, hφ => by
     cases first <;> simp [toksKVs, parse, pstep, operandStep, afterStep, closeStep, closes, startsPositional]
-  | (k, v) :: r, h, first, σ, b, φ, rest => by
+  | (k, v) :: r, h, first, σ, b, φ, rest, hφ => by
     simp only [wfKVs, Bool.and_eq_true] at h
-    have ih2 := parse_expr v h.1.2 (.dict .colon :: σ) false φ (toksKVs false r ++ .op '}' :: rest)
-    have ih3 := parse_kvs r h.2 false σ (endsStr v) φ rest
+    have ih2 := parse_expr v h.1.2 (.dict .colon :: σ) false φ (toksKVs false r ++ .op '}' :: rest) hφ
+    have ih3 := parse_kvs r h.2 false σ (endsStr v) φ rest hφ
     cases first
-    · have ih1 := parse_expr k h.1.1 (.dict .commaD :: σ) true φ (.op ':' :: (toks v ++ (toksKVs false r ++ .op '}' :: rest)))
+    · have ih1 := parse_expr k h.1.1 (.dict .commaD :: σ) true φ (.op ':' :: (toks v ++ (toksKVs false r ++ .op '}' :: rest))) hφ
       simp [toksKVs, parse, pstep, afterStep] at ih1 ih2 ih3 ⊢
       rw [ih1, ih2, ih3]
-    · have ih1 := parse_expr k h.1.1 (.dict .start :: σ) true φ (.op ':' :: (toks v ++ (toksKVs false r ++ .op '}' :: rest)))
+    · have ih1 := parse_expr k h.1.1 (.dict .start :: σ) true φ (.op ':' :: (toks v ++ (toksKVs false r ++ .op '}' :: rest))) hφ
       simp [toksKVs, parse, pstep, afterStep] at ih1 ih2 ih3 ⊢
       rw [ih1, ih2, ih3]
 end
@@ -1030,12 +1034,12 @@ theorem parse_item (it : Item) (h : wfItem it = true) (hb : nonBlank it = true) 
   | doc d => simp [itemToks, parse, pstep, st0, operandStep, afterStep, startsPositional]
   | ann n e =>
     simp only [wfItem, Bool.and_eq_true, targetName, Bool.not_eq_true'] at h
-    have ih := parse_expr e h.2 [] false .ann (.newline :: rest)
+    have ih := parse_expr e h.2 [] false .ann (.newline :: rest) (by decide)
     simp [itemToks, parse, pstep, st0, isOp, h.1.2, afterStep] at ih ⊢
     rw [ih]
   | assign n e =>
     simp only [wfItem, Bool.and_eq_true, targetName, Bool.not_eq_true'] at h
-    have ih := parse_expr e h.2 [] false .rhs (.newline :: rest)
+    have ih := parse_expr e h.2 [] false .rhs (.newline :: rest) (by decide)
     simp [itemToks, parse, pstep, st0, isOp, h.1.2, afterStep] at ih ⊢
     rw [ih]
 
